@@ -194,6 +194,8 @@ func init() {
 			ex.clock++
 			return smt.BVC(64, uint64(1000+ex.clock))
 		},
+		"strings.Clone":              func(ex *Exec, c *frame, fn *ssa.Function, a []Value) Value { return a[0] },
+		"internal/stringslite.Clone": func(ex *Exec, c *frame, fn *ssa.Function, a []Value) Value { return a[0] },
 		"crypto/rand.Int": func(ex *Exec, c *frame, fn *ssa.Function, a []Value) Value {
 			max := (*(a[1].(*Value))).(*smt.Term)
 			if ex.P.branch(smt.SLe(max, smt.BVC(64, 0))) {
